@@ -65,6 +65,7 @@ pub use pointers::*;
 #[cfg(circ_verif)]
 pub mod verif_shim {
     pub use super::collector::{Collector, LocalHandle};
+    pub use super::default::verif_shim_default::*;
     pub use super::epoch::verif_shim_epoch::*;
     pub use super::internal::verif_shim_internal::*;
     pub use super::pointers::verif_shim_ptr::*;
